@@ -166,9 +166,11 @@ pub fn check(scn: &Scenario, h: &History) -> Outcome {
             }
         }
         // every accepted action is still processed, whatever effects panicked before it
-        for disp in d.disps.iter().filter(|x| d.store_of_act(x.act) == s && x.ok == Some(true)) {
-            if !runs.iter().any(|r| r.act == disp.act) {
-                out.viol(format!("action {} was accepted but never processed (an effect broke or blocked the pipeline?)", disp.act));
+        if scn.stores[s].policy == Pol::Block {
+            for disp in d.disps.iter().filter(|x| d.store_of_act(x.act) == s && x.ok == Some(true)) {
+                if !runs.iter().any(|r| r.act == disp.act) {
+                    out.viol(format!("action {} was accepted but never processed (an effect broke or blocked the pipeline?)", disp.act));
+                }
             }
         }
         // client thunks / tasks
@@ -202,7 +204,7 @@ pub fn check(scn: &Scenario, h: &History) -> Outcome {
                             }
                         }
                         let acc = d.disps.iter().any(|x| x.act == *f && x.ok == Some(true));
-                        if acc && !runs.iter().any(|r| r.act == *f) {
+                        if acc && scn.stores[s].policy == Pol::Block && !runs.iter().any(|r| r.act == *f) {
                             out.viol(format!("follow-up {} of client thunk {} was accepted but never reduced", f, eff.id));
                         }
                     }
@@ -259,6 +261,7 @@ pub static PROFILE: Profile = Profile {
     liveness: true,
     enumerate: None,
     extra: None,
+    borrow: &["C01", "C02", "C03", "C04", "C05", "C06", "C07", "C08", "C09", "C10", "C12", "C13", "C14", "C15", "C18", "C19"],
     assumptions: &[
         "Effect::Action follow-ups are required to be reduced only in the quiescent ending (the store provably still open when the worker dispatches them)",
         "driver S models the pool as one worker thread per task (no worker reuse); worker reuse is exercised by driver R with the real pool",
